@@ -279,6 +279,8 @@ func runC06(c *Ctx) {
 	if f := c.Fn("C06-R4", "kvcache", "Causal.buildMask"); f != nil {
 		g := c.G(f)
 		n := 0
+		mem, causal, window := false, false, false
+		var lastStore ast.Node
 		for _, st := range g.Find(func(n ast.Node) bool {
 			a, ok := n.(*ast.AssignStmt)
 			if !ok || len(a.Lhs) != 1 {
@@ -287,52 +289,155 @@ func runC06(c *Ctx) {
 			_, isIx := ast.Unparen(a.Lhs[0]).(*ast.IndexExpr)
 			return isIx && len(core.CallsTo(info, a.Rhs[0], false, "math.Inf")) == 1
 		}) {
-			// the per-cell store (index mentions both loop variables), not the padding fill
+			// the per-cell store: its index mentions a variable that also indexes c.cells in a
+			// condition controlling it (not the padding fill)
 			a := st.Node.(*ast.AssignStmt)
 			ix := ast.Unparen(a.Lhs[0]).(*ast.IndexExpr)
-			if !strings.Contains(core.ExprString(ix.Index), "j") {
+			cellVars := map[types.Object]bool{}
+			for _, fct := range g.Facts(st.Loc) {
+				for _, x := range expand(g, fct.Expr, 2) {
+					ast.Inspect(x, func(m ast.Node) bool {
+						if cx, ok := m.(*ast.IndexExpr); ok && core.FieldVar(info, cx.X) == fCells {
+							for _, id := range identsOf(cx.Index) {
+								if o := info.Uses[id]; o != nil {
+									cellVars[o] = true
+								}
+							}
+						}
+						return true
+					})
+				}
+			}
+			perCell := false
+			for _, id := range identsOf(ix.Index) {
+				if cellVars[info.Uses[id]] {
+					perCell = true
+				}
+			}
+			if !perCell {
 				continue
 			}
 			n++
-			mem, causal, window := false, false, false
-			for _, fct := range g.Facts(st.Loc) {
-				if !fct.Val {
-					continue
-				}
-				var terms []ast.Expr
-				var split func(e ast.Expr)
-				split = func(e ast.Expr) {
-					if be, ok := ast.Unparen(e).(*ast.BinaryExpr); ok && be.Op == token.LOR {
-						split(be.X)
-						split(be.Y)
-						return
-					}
-					terms = append(terms, ast.Unparen(e))
-				}
-				split(fct.Expr)
-				for _, t := range terms {
-					s := core.ExprString(t)
-					if u, ok := t.(*ast.UnaryExpr); ok && u.Op == token.NOT {
-						if call, isC := ast.Unparen(u.X).(*ast.CallExpr); isC && core.CalleeName(info, call) == "slices.Contains" &&
-							core.FieldVar(info, call.Args[0]) == fSeqs && strings.Contains(core.ExprString(call.Args[1]), "curSequences[i]") {
-							mem = true
+			lastStore = a
+			mentionsField := func(e ast.Node, name string) bool {
+				found := false
+				ast.Inspect(e, func(m ast.Node) bool {
+					if se, ok := m.(*ast.SelectorExpr); ok && se.Sel.Name == name {
+						if v, isV := info.Uses[se.Sel].(*types.Var); isV && v.IsField() {
+							found = true
 						}
 					}
-					if core.UsesField(info, t, fPos) && strings.Contains(s, "> c.curPositions[i]") {
-						causal = true
+					return !found
+				})
+				return found
+			}
+			for _, fct := range g.Facts(st.Loc) {
+				// terms that make the store execute: ||-terms of a condition that holds, or the
+				// negations of &&-terms of a condition that does not
+				type term struct {
+					e   ast.Expr
+					pos bool
+				}
+				var terms []term
+				var split func(e ast.Expr, pos bool)
+				split = func(e ast.Expr, pos bool) {
+					e = ast.Unparen(e)
+					if u, ok := e.(*ast.UnaryExpr); ok && u.Op == token.NOT {
+						split(u.X, !pos)
+						return
 					}
-					if core.UsesField(info, t, fPos) && strings.Contains(s, "windowSize") && strings.Contains(s, "<") {
-						window = true
+					if be, ok := e.(*ast.BinaryExpr); ok && ((be.Op == token.LOR && pos) || (be.Op == token.LAND && !pos)) {
+						split(be.X, pos)
+						split(be.Y, pos)
+						return
+					}
+					if be, ok := e.(*ast.BinaryExpr); ok && be.Op == token.LAND && pos {
+						// (enabled && pos > cur): both conjuncts are needed; look at each
+						split(be.X, pos)
+						split(be.Y, pos)
+						return
+					}
+					if id, ok := e.(*ast.Ident); ok {
+						// a local boolean: follow its definition
+						if v, isV := info.Uses[id].(*types.Var); isV && !v.IsField() {
+							if as := g.AssignsTo(v); len(as) == 1 {
+								if d, isAs := as[0].Node.(*ast.AssignStmt); isAs && len(d.Rhs) == 1 {
+									if _, isB := ast.Unparen(d.Rhs[0]).(*ast.BinaryExpr); isB {
+										split(d.Rhs[0], pos)
+										return
+									}
+									if _, isU := ast.Unparen(d.Rhs[0]).(*ast.UnaryExpr); isU {
+										split(d.Rhs[0], pos)
+										return
+									}
+									if _, isC := ast.Unparen(d.Rhs[0]).(*ast.CallExpr); isC {
+										split(d.Rhs[0], pos)
+										return
+									}
+								}
+							}
+						}
+					}
+					terms = append(terms, term{e, pos})
+				}
+				split(fct.Expr, fct.Val)
+				for _, t := range terms {
+					if call, isC := t.e.(*ast.CallExpr); isC && !t.pos && core.CalleeName(info, call) == "slices.Contains" && len(call.Args) == 2 &&
+						core.FieldVar(info, call.Args[0]) == fSeqs && mentionsField(call.Args[1], "curSequences") {
+						mem = true
+					}
+					be, isB := t.e.(*ast.BinaryExpr)
+					if !isB {
+						continue
+					}
+					op := be.Op
+					x, y := be.X, be.Y
+					if !core.UsesField(info, x, fPos) && core.UsesField(info, y, fPos) {
+						x, y = y, x
+						switch op {
+						case token.LSS:
+							op = token.GTR
+						case token.GTR:
+							op = token.LSS
+						case token.LEQ:
+							op = token.GEQ
+						case token.GEQ:
+							op = token.LEQ
+						}
+					}
+					if !t.pos {
+						switch op {
+						case token.LSS:
+							op = token.GEQ
+						case token.GTR:
+							op = token.LEQ
+						case token.LEQ:
+							op = token.GTR
+						case token.GEQ:
+							op = token.LSS
+						}
+					}
+					if !core.UsesField(info, x, fPos) || !mentionsField(y, "curPositions") {
+						continue
+					}
+					if mentionsField(y, "windowSize") {
+						if op == token.LSS {
+							window = true
+						}
+					} else if op == token.GTR {
+						causal = true
 					}
 				}
 			}
-			c.Check("C06-R4", f.Key()+" -Inf controlled by sequence, causality and window", c.Pos(a), mem && causal && window, "the mask condition must be: not the same sequence ∨ later position ∨ before the window")
+		}
+		if n > 0 {
+			c.Check("C06-R4", f.Key()+" -Inf controlled by sequence, causality and window", c.Pos(lastStore), mem && causal && window, "the mask condition must be: not the same sequence ∨ later position ∨ before the window")
 		}
 		c.Expect("C06-R4", "per-cell mask stores", n, 1)
 		// padding rows are masked
 		okPad := false
 		ast.Inspect(f.Body, func(n ast.Node) bool {
-			if fs, ok := n.(*ast.ForStmt); ok && fs.Init != nil && strings.Contains(core.ExprString(fs.Init.(*ast.AssignStmt).Rhs[0]), "curBatchSize") {
+			if fs, ok := n.(*ast.ForStmt); ok && fs.Init != nil && mentionsSel(fs.Init, "curBatchSize") {
 				if len(core.CallsTo(info, fs.Body, false, "math.Inf")) == 1 {
 					okPad = true
 				}
